@@ -223,6 +223,45 @@ def replay_findings(ctx):
             ctx.notes.append("listed finding %s no longer reproduces" % fid)
 
 
+def fresh_process_smoke(ctx):
+    """One record of every serialisable field type (plus keyword-named fields, nested and grouped records) written and read
+    in a CHILD interpreter that imports only what a user script imports, compared with the same scenario in-process: an
+    import-order dependence or module-level state left behind by the harness' own imports cannot hide a failure.
+    Returns True when a violation was reported."""
+    import json
+    import subprocess
+    import sys
+    from vf import smoke_stream
+    wd = str(ctx.work)
+    script = os.path.join(os.path.dirname(os.path.abspath(smoke_stream.__file__)), "smoke_stream.py")
+    env = dict(os.environ, PYTHONPATH=str(core.REPO), PYTHONHASHSEED="0")
+    p = subprocess.run([sys.executable, "-W", "ignore", script, wd], env=env, cwd=wd, stdout=subprocess.PIPE, stderr=subprocess.PIPE, text=True, timeout=300)
+    ctx.count_case(("fresh-process-smoke",))
+    if p.returncode != 0:
+        ctx.violation("the stream smoke scenario fails in a fresh interpreter that imports only flow.record: %s" % p.stderr.strip().splitlines()[-1:],
+                      dict(kind="fresh-process", script="tools/vf/smoke_stream.py", stderr=p.stderr[-3000:]))
+        return True
+    child = json.loads(p.stdout)
+    with warnings.catch_warnings():
+        warnings.simplefilter("ignore")
+        here = json.loads(json.dumps(smoke_stream.scenario(wd), sort_keys=True))
+    problems = []
+    for who, d in (("child", child), ("in-process", here)):
+        if d["stream_readback"] != d["written"]:
+            problems.append("%s: the low-level stream reads back other records than written" % who)
+        for k, v in d.items():
+            if k.startswith("path.records") and v != d["written"][:2]:
+                problems.append("%s: %s reads back %s" % (who, k, str(v)[:200]))
+    for k in sorted(set(child) | set(here)):
+        if child.get(k) != here.get(k):
+            problems.append("child and in-process run differ in %s: %s vs %s" % (k, str(child.get(k))[:200], str(here.get(k))[:200]))
+    if problems:
+        ctx.violation("stream smoke scenario (one record of every field type, keyword fields, nested, grouped): " + problems[0],
+                      dict(kind="fresh-process", script="tools/vf/smoke_stream.py", problems=problems[:10]))
+        return True
+    return False
+
+
 def search(ctx, reason):
     cases = generate_cases(ctx, 150, check_paths=False)
     if check_property(ctx, cases):
@@ -259,6 +298,8 @@ def run(ctx):
     if check_property(ctx, cases):
         return
     replay_findings(ctx)
+    if fresh_process_smoke(ctx):
+        return
     # descriptor-registry histories (same-name / identifier-coincident / nested / grouped descriptors on 1-3 writers): a record
     # decoded with another descriptor is a round-trip failure too
     from vf.props import c03
